@@ -52,3 +52,5 @@ func main() {
 		usage()
 	}
 }
+
+var verbose = os.Getenv("GOSYM_VERBOSE") != ""
